@@ -75,9 +75,10 @@ OTHER_RUNTIME_CALLS = ["cudaStreamIsCapturing", "cudaMalloc", "cudaFuncSetAttrib
                        "cudaPeekAtLastError", "cudaEventCreateWithFlags"]
 # names that are special to some layer between the trace file and the result: pandas' NA strings, glob / regex
 # characters, separators used by the tool's own output, numbers
-ODD_OP_NAMES = ["None", "nan", "NA", "null", "N/A", "<unknown>", "True", "1e5", "007", "layer[1]", "layer1",
-                "[pl][profile]run_training_batch", "model?fwd", "a*b", "op,with,comma", "op \"quoted\"", "op|pipe",
-                "op\twith\ttab", "aten::add.Tensor(self, other)", "  padded  ", "été"]
+ODD_NA_NAMES = ["None", "nan", "NA", "null", "N/A", "<unknown>", "True", "1e5", "007"]
+ODD_GLOB_NAMES = ["layer[1]", "[pl][profile]run_training_batch", "model?fwd", "a*b", "aten::add.Tensor(self, other)"]
+ODD_SEP_NAMES = ["op,with,comma", "op \"quoted\"", "op|pipe", "op\twith\ttab", "  padded  ", "été"]
+ODD_OP_NAMES = ODD_NA_NAMES + ODD_GLOB_NAMES + ["layer1"] + ODD_SEP_NAMES
 USER_ANNOTATIONS = ["## forward ##", "## loss ##", "## optimizer ##", "dataloader", "[param|forward]",
                     "nccl:all_reduce", "## zero_grad ##"]
 FILE_NAME_PATTERNS = [
@@ -816,7 +817,10 @@ def gen_world(rng: Rng, profile: str = "loader", overrides: Optional[Dict[str, A
         "annotations": vr.sample(USER_ANNOTATIONS, min(3, len(USER_ANNOTATIONS))),
     }
     if knobs.get("odd_names"):
-        odd = vr.sample(ODD_OP_NAMES, vr.randint(2, 4))
+        # one name of every family (each family is syntax to a different layer), plus the look-alike of a glob name
+        odd = [vr.choice(ODD_NA_NAMES), vr.choice(ODD_GLOB_NAMES), vr.choice(ODD_SEP_NAMES)]
+        if "layer[1]" in odd:
+            odd.append("layer1")
         base_vocab["ops"] = base_vocab["ops"] + odd
     if knobs.get("big_steps"):
         knobs["step_base"] = rng.fork("bigsteps").choice([2**31 - 2, 2**31 + 5, 2**32 - 1, 2**32 + 1, 2**40])
